@@ -353,6 +353,35 @@ func (d *Driver) check(id string) int {
 			fmt.Fprintf(os.Stderr, "harness %s: %.1fs states=%d paths=%d\n", h.Func, time.Since(hs).Seconds(), eng.stats.States, eng.stats.Paths)
 		}
 	}
+	if d.verbose {
+		type kv struct {
+			k string
+			v int
+		}
+		var kvs []kv
+		for k, v := range eng.pathHist {
+			kvs = append(kvs, kv{k, v})
+		}
+		sort.Slice(kvs, func(i, j int) bool { return kvs[i].v > kvs[j].v })
+		var fks []kv
+		for k, v := range eng.forkHist {
+			fks = append(fks, kv{k, v})
+		}
+		sort.Slice(fks, func(i, j int) bool { return fks[i].v > fks[j].v })
+		for i, x := range fks {
+			if i >= 30 {
+				break
+			}
+			fmt.Fprintf(os.Stderr, "FORKS %6d  %s\n", x.v, x.k)
+		}
+		fmt.Fprintf(os.Stderr, "distinct choice combinations: %d\n", len(kvs))
+		for i, x := range kvs {
+			if i >= 25 {
+				break
+			}
+			fmt.Fprintf(os.Stderr, "%6d  %s\n", x.v, x.k)
+		}
+	}
 	incon = append(incon, eng.incon...)
 	for c, h := range wantCovers {
 		if _, ok := eng.covers[c]; !ok {
